@@ -42,7 +42,7 @@ def strategy_names(body):
     return out
 
 
-def run(ctx):
+def _run_base(ctx):
     repo, cg = ctx.repo, ctx.cg
     ctx.rule('R05.1', 'non-conflict arms (untouched, one-sided, identical) are the first arms any such chunk/op pair can reach and are strategy-free; '
              'onesided/agreement create unconflicted decisions', floor=20)
@@ -363,3 +363,11 @@ def mirror_statement_pairs(ctx, rule, only=None):
                              'the assignment to %s is not the local/remote mirror image of the assignment to %s (expected `%s`): the two sides are treated differently'
                              % (t2.id, t1.id, ' '.join(ast.unparse(ast.fix_missing_locations(img)).split())[:120]), s2)
     return n
+
+
+def run(ctx):
+    ctx.rule('R05.5', 'diffs concatenated in role order (local_then_remote) are re-sorted by key before they are applied (C09 R09.8): otherwise which side is called local decides the text', floor=2)
+    _run_base(ctx)
+    from . import c09
+    from ..report import run_sub
+    run_sub(ctx, c09, {'R09.8': 'R05.5'})
